@@ -118,9 +118,12 @@ var c18Issuers = []struct {
 	{"other+format-persistent", samlgen.S("https://evil-idp.example.net/metadata\x00urn:oasis:names:tc:SAML:2.0:nameid-format:persistent"), false},
 	{"other+format-misspelt-entity", samlgen.S("https://evil-idp.example.net/metadata\x00urn:oasis:names:tc:SAML:2.0:nameid-format:Entity"), false},
 	{"other+format-empty", samlgen.S("https://evil-idp.example.net/metadata\x00"), false},
+	// another entity whose ID merely starts with the configured one (a second tenant behind the same key)
+	{"idp+tenant-suffix", samlgen.S(samlgen.IDPEntity + "/tenant-b"), false},
 }
 
 var c18Sigs = []string{"valid", "valid-no-keyinfo", "absent", "untrusted-key", "lookalike-certificate-key", "encryption-use-key", "edited-after/destination", "edited-after/issuer", "edited-after/status", "edited-after/issueinstant",
+	"valid+comment-splits-issuer-text", "valid+cdata-splits-issuer-text", "valid+comment-before-issuer-text",
 	"valid-keyinfo-names-the-subject-only", "valid-keyinfo-issuer-serial-only", "valid-keyinfo-keyname-only",
 	"other-root/samlp:Response", "other-root/samlp:ArtifactResponse", "other-root/samlp:LogoutRequest", "other-root/foreign:LogoutResponse", "other-root/saml:LogoutResponse", "other-root/samlp:logoutresponse",
 	"relocated-under-status", "wrapped-in-unsigned", "duplicated", "attacker-signed+trusted-cert-appended", "attacker-signed+trusted-cert-first", "signature-value-truncated", "foreign-ns-signature-lookalike"}
@@ -187,6 +190,32 @@ func c18Build(dest, issuer *string, st c18Status, iiOff time.Duration, iiPresent
 		s := samlgen.Sign(el, trustKey, "")
 		if ki := s.FindElement("./KeyInfo"); ki != nil {
 			s.RemoveChild(ki)
+		}
+	case strings.HasPrefix(sig, "valid+"):
+		// edits that canonicalisation erases (the signature stays valid): a comment or a CDATA boundary inside the Issuer's text, placed
+		// right after the configured entity ID when the text goes on, else in its middle. The issuer is still the whole text.
+		samlgen.Sign(el, trustKey, "")
+		if is := el.FindElement("./Issuer"); is != nil {
+			txt := is.Text()
+			cut := len(txt) / 2
+			if strings.HasPrefix(txt, samlgen.IDPEntity) && len(txt) > len(samlgen.IDPEntity) {
+				cut = len(samlgen.IDPEntity)
+			}
+			attrs := is.Attr
+			is.Child = nil
+			is.Attr = attrs
+			switch sig {
+			case "valid+comment-splits-issuer-text":
+				is.CreateText(txt[:cut])
+				is.CreateComment(" c ")
+				is.CreateText(txt[cut:])
+			case "valid+cdata-splits-issuer-text":
+				is.CreateText(txt[:cut])
+				is.CreateCData(txt[cut:])
+			default:
+				is.CreateComment(" c ")
+				is.CreateText(txt)
+			}
 		}
 	case strings.HasPrefix(sig, "valid-keyinfo-"):
 		// a genuine signature whose KeyInfo only hints at the key (it carries no certificate): still the trusted IdP's signature
@@ -342,7 +371,7 @@ func runC18(c *core.Ctx) {
 			}
 		}
 		switch sig {
-		case "valid":
+		case "valid", "valid+comment-splits-issuer-text", "valid+cdata-splits-issuer-text", "valid+comment-before-issuer-text":
 		case "valid-no-keyinfo":
 			dc = true
 		case "valid-keyinfo-names-the-subject-only", "valid-keyinfo-issuer-serial-only", "valid-keyinfo-keyname-only":
